@@ -28,7 +28,11 @@ QMonClauses(m, ev) ==
   CASE ev.e = "snap" ->
          << <<"C08-pool-never-lists-a-connection-twice", NoDup(ev.used) /\ NoDup(ev.free) /\ SeqSet(ev.used) \cap SeqSet(ev.free) = {}>>,
             <<"C08-pool-never-exceeds-max_pool_size", Len(ev.used) + Len(ev.free) <= m.max>> >>
-    [] ev.e = "call" -> << >>
+    [] ev.e = "call" ->
+         (* a connection is given back (released or destroyed) by the thread that holds it, or by nobody's holder *)
+         (* (a second give-back of a connection nobody has taken since is harmless); never out of another thread's hands *)
+         << <<"C08-a-connection-is-given-back-only-by-its-holder",
+                  ev.m \in {"release", "destroy"} => Get(m.held, ev.o) \in {0, ev.t}>> >>
     [] ev.e = "ret" ->
          << <<"C08-a-connection-is-held-by-at-most-one-thread",
                   ev.m = "get" => Get(m.held, ev.o) = 0>>,
@@ -43,8 +47,11 @@ QMonClauses(m, ev) ==
                      \A o \in SeqSet(m.free) : o \in DOMAIN m.rel => ~(m.now - m.rel[o] > m.idle)>> >>
     [] ev.e = "tick" -> << >>
     [] ev.e = "raise" ->
+         (* m = "get": the pool's own checkout; m = "api": what escaped from a PooledClient call -- the capacity error, or *)
+         (* a connection / memcached / input error of that call, never an internal error of the pool                    *)
          << <<"C08-no-internal-error-from-the-pool",
-                  ev.m = "get" /\ ev.x = "capacity" /\ ev.t \in m.sawfull>> >>
+                  IF ev.m = "api" THEN ev.x \in {"capacity", "conn"}
+                  ELSE ev.m = "get" /\ ev.x = "capacity" /\ ev.t \in m.sawfull>> >>
     [] ev.e = "create" -> << <<"create-new-object", ev.o \notin m.created>> >>
     [] ev.e = "close" ->
          << <<"C08-every-connection-closed-at-most-once", Get(m.closed, ev.o) = 0>>,
